@@ -302,6 +302,15 @@ func init() {
 			if chk.JSON(got) != chk.JSON(per) {
 				viol("C14:per-metric:large-payload", "per-metric", fmt.Sprintf("per-metric totals of a 600 KiB payload: %d keys %v, expected %v", len(got), truncMap(got), per), map[string]interface{}{"payload": "600 KiB, 3 metric names interleaved"})
 			}
+			// ... and the totals of that scrape (the payload spans about ten parser blocks)
+			nBig := int64(per["big_alpha"] + per["big_beta"] + per["big_gamma"])
+			if st, err := sc2.Status(); err != nil || st[9] == nil || st[9].Series != nBig || st[9].TotalSeries != nBig {
+				se, to := int64(-1), int64(-1)
+				if err == nil && st[9] != nil {
+					se, to = st[9].Series, st[9].TotalSeries
+				}
+				viol("C14:total:large-payload", "total-before-relabel", fmt.Sprintf("a 600 KiB payload of %d samples (no relabel rules): series / total series %d / %d", nBig, se, to), map[string]interface{}{"payload": "600 KiB, 3 metric names interleaved"})
+			}
 		}
 		// ---- (a3) reloads that change ONLY the metric relabel rules of a job (everything else, also the job's
 		// HTTP client settings, stays): every ordered pair of programs, the same payload before and after, and
